@@ -20,7 +20,7 @@ type c11Params struct {
 	Side     string `json:"side"`     // which side's outgoing chunks are judged: client | server
 	Senders  int    `json:"senders"`  // concurrent senders inside the window
 	BigBytes int    `json:"big_bytes"` // >0: sender 1 sends a multi-chunk message of this payload size
-	Renew    string `json:"renew"`    // "", "call" (explicit Renew in the window)
+	Renew    string `json:"renew"`    // "", "call" (explicit Renew in the window), "fails" (the renewal is never answered and times out before the senders run)
 	Eager    bool   `json:"prompt_peer"` // the side that is not judged answers promptly and is not part of the interleaving
 	Delay    bool   `json:"delay_bounded"`
 }
@@ -59,8 +59,27 @@ func c11Body(p c11Params) func() {
 				}()
 			}
 		}
-		sc, _ := pair(ctx, srv, noneCfg(3600000, 10*time.Second))
+		timeout := 10 * time.Second
+		if p.Renew == "fails" {
+			timeout = time.Second
+		}
+		sc, _ := pair(ctx, srv, noneCfg(3600000, timeout))
 		vrt.Settle()
+		if p.Renew == "fails" {
+			// the server's answer to the renewal is delayed beyond the client's timeout
+			var srvConn *vnet.TCPConn
+			for _, c := range vnet.Net().Conns {
+				if c.LocalAddr().String() == "127.0.0.1:4840" {
+					srvConn = c
+				}
+			}
+			srvConn.SetLatency(time.Hour)
+			if err := sc.Renew(ctx); err == nil {
+				obs.errs = append(obs.errs, "renewal unexpectedly succeeded")
+			}
+			srvConn.SetLatency(0)
+			time.Sleep(2 * time.Second)
+		}
 		vrt.BeginWindow()
 		var wg sync.WaitGroup
 		for i := 1; i <= p.Senders; i++ {
@@ -169,10 +188,12 @@ func c11Scenarios(thorough bool) []driver.Scenario {
 		add(c11Params{Side: "client", Senders: 2, Renew: "call"}, 1, 0)
 		add(c11Params{Side: "server", Senders: 2, BigBytes: 20000}, 1, 0)
 		add(c11Params{Side: "server", Senders: 3}, 1, 0)
+		add(c11Params{Side: "client", Senders: 2, Renew: "fails", Delay: true}, 2, 0)
 	} else {
 		add(c11Params{Side: "client", Senders: 2, Renew: "call", Delay: true}, 2, 0)
 		add(c11Params{Side: "client", Senders: 2, BigBytes: 20000, Renew: "call", Delay: true}, 2, 0)
 		add(c11Params{Side: "server", Senders: 2, BigBytes: 20000, Delay: true}, 2, 0)
+		add(c11Params{Side: "client", Senders: 2, Renew: "fails", Delay: true}, 1, 0)
 	}
 	return out
 }
